@@ -45,6 +45,7 @@ package signed256
 //@ func (*Int).Cmp
 //@   property C05
 //@   opt wide=272
+//@   pureeffect
 //@   valid (z.neg ==> leval(z.mag, 0, 4) != 0) && (x.neg ==> leval(x.mag, 0, 4) != 0)
 //@   ensures [sign_of_difference] result == ite(valOf(z.neg, leval(z.mag, 0, 4)) < valOf(x.neg, leval(x.mag, 0, 4)), -1, ite(valOf(z.neg, leval(z.mag, 0, 4)) == valOf(x.neg, leval(x.mag, 0, 4)), 0, 1))
 
